@@ -37,7 +37,7 @@ MODES = ['normal'] * 12 + ['no_offer', 'server_omits', 'bad_params',
 
 
 def plan(tier):
-    return [('seeded', 4096 if tier == 'quick' else 160000),
+    return [('seeded', 8192 if tier == 'quick' else 160000),
             ('reconnect', 300 if tier == 'quick' else 12000)]
 
 
